@@ -149,3 +149,28 @@ Proof.
   split; [|vm_compute; reflexivity]. apply C17_shift_any_axis_any_amount; [reflexivity|].
   cbn. repeat split; try reflexivity. constructor.
 Qed.
+
+(* ties, no pruning: the leaves of the shifted data correspond one to one to the leaves of the
+   original data (same number of leaves) *)
+From Dendro Require Import RegMax LeafIso.
+Theorem C17_shifted_leaves_correspond_with_ties :
+  forall k a shape per n vals vals' minv,
+    0 < n -> axis_ok a shape shape per per n n true true ->
+    let g := axis_map a shape shape (iter_map k (rot1 n)) in
+    (forall pv, In pv (kept vals minv) -> inrange shape (fst pv)) ->
+    carried g (kept vals minv) (kept vals' minv) ->
+    (forall t, In t (fnodes (run (nbrs shape per) np (order_of (kept vals minv)))) -> is_leaf t = true ->
+       exists t', In t' (fnodes (run (nbrs shape per) np (order_of (kept vals' minv)))) /\ is_leaf t' = true /\
+                  forall z, topof t z -> topof t' (gpv g z)) /\
+    (forall t', In t' (fnodes (run (nbrs shape per) np (order_of (kept vals' minv)))) -> is_leaf t' = true ->
+       exists t, In t (fnodes (run (nbrs shape per) np (order_of (kept vals minv)))) /\ is_leaf t = true /\
+                 forall z, topof t z -> topof t' (gpv g z)).
+Proof.
+  intros k a shape per n vals vals' minv Hn H g Hr Hc.
+  pose proof (C17_shift_any_axis_any_amount k a shape per n Hn H) as Hiso.
+  destruct (axis_ok_allpos a shape shape per per n n true true Hn Hn H) as [Hp _].
+  split.
+  - exact (grid_leaf_image shape shape per per g Hiso Hp Hp vals vals' minv Hr Hc).
+  - exact (grid_leaf_preimage shape shape per per g Hiso Hp Hp vals vals' minv Hr Hc).
+Qed.
+Print Assumptions C17_shifted_leaves_correspond_with_ties.
